@@ -1,8 +1,11 @@
 import functools
 import math
+import os
+import re
 import struct
 from fractions import Fraction
 
+from . import common as C
 from .runner import Spec
 
 def f64(bits_hex):
@@ -65,6 +68,16 @@ class C20(Spec):
         "container/heap: transcribed in Got.Model.GoHeap (not trusted by contract); math/rand, math.Log: outside the model — "
         "the keys are inputs of the model, the float key computation is covered by the exact-rank comparison and the statistical test only",
         "the Efraimidis–Spirakis law (P[index i] = w_i/sum w for m = 1) is NOT proved in Lean; it is checked statistically (6 sigma, seeded)",
+        "translator tie of container/heap: tools/srcfacts/minigo_heap.go (go/ast + go/types on $GOROOT/src/container/heap/heap.go of the "
+        "toolchain that builds the harness -> MiniGoHeap terms of up, down, Init, Push, Pop, Remove, Fix, regenerated every run into "
+        "Got/Generated/AstContainerHeap.lean), the MiniGoHeap interpreter's reading of Go (Got/Model/MiniGoHeap.lean) and the slice-backed "
+        "heap.Interface world (Got/Model/HeapAstWorld.lean); the WeightedSampling loop over the INTERPRETED heap terms "
+        "(Got/Model/SampleAst.lean, loop glue hand-written) is compared with the real code on every valid call (driver mode `ast`); "
+        "the world itself is built from the methods of randx.sampleHeap re-read every run (tools/srcfacts/minigo_iface.go -> "
+        "Got/Generated/AstRandxSampleHeap.lean, semantics Got/Model/MiniGoIface.lean) and proved equal to the slice-backed world; "
+        "the body of WeightedSampling is re-described every run as well (tools/srcfacts/minigo_sample.go -> Got/Generated/AstRandxSampling.lean, "
+        "interpreter Got/Model/MiniGoSampleLoop.lean: integer control flow as written, the float key computation = the input key of that index, "
+        "heap calls and result slice as abstract statements); `drv_sample ast` runs exactly this composition",
     ]
     assumptions = ["getWeight returns strictly positive finite weights (property domain); other weights only exercise model fidelity",
                    "math/rand global stream is not used concurrently during a call (harness is single-threaded)"]
@@ -129,6 +142,11 @@ class C20(Spec):
         if len(set(res)) != len(res):
             return ("invalid-result", "duplicate index in %s" % res)
         kind = f.get("kind", "")
+        # ---- BEGIN large populations (kind=big: compact weight description, harness/cmd/c20/big.go), judged in c20_big.py
+        if kind == "big":
+            from . import c20_big
+            return c20_big.oracle_big(w, f, impl, res)
+        # ---- END large populations
         if kind == "off" or any(not (x > 0 and math.isfinite(x)) for x in weights) or any(not (0 < u < 1) for u in us):
             return None  # weights outside the property's domain: validity only
         sig = "not-top-m"
@@ -191,6 +209,54 @@ class C20(Spec):
                 return (sig, "weights %s, m=%d, %d seeded draws: index set %s returned %d times, expected %.1f +- %.1f (6 sigma); counts %s"
                         % (weights, m, trials, bin(k), counts.get(k, 0), want, tol, fi.get("c")))
         return None
+
+    AST_FUNCS = ("h_up", "h_down", "h_Init", "h_Push", "h_Pop", "h_Remove", "h_Fix")
+
+    def extra(self, ctx):
+        """second correspondence: WeightedSampling over the MiniGoHeap interpretation of the container/heap terms regenerated
+        from GOROOT (driver mode `ast`) must print what the real code printed on every line (validates translator +
+        interpreter; the Lean theorems C20_translated_source_* tie those terms to the model)."""
+        ex = ctx.get("ex")
+        cov = ctx["coverage"]
+        notes = {}
+        gen = os.path.join(C.LEAN, "Got", "Generated", "AstContainerHeap.lean")
+        if os.path.exists(gen):
+            for m in re.finditer(r'^def (\w+)Note : String := "((?:[^"\\]|\\.)*)"', open(gen).read(), re.M):
+                notes[m.group(1)] = m.group(2)
+        bad_notes = {f: notes.get(f, "<no translation>") for f in self.AST_FUNCS if notes.get(f) != "ok"}
+        geni = os.path.join(C.LEAN, "Got", "Generated", "AstRandxSampleHeap.lean")
+        others = re.findall(r'\(\.other "((?:[^"\\]|\\.)*)"\)', open(geni).read()) if os.path.exists(geni) else ["<no translation>"]
+        if others:
+            bad_notes["sampleHeap methods"] = others
+        genl = os.path.join(C.LEAN, "Got", "Generated", "AstRandxSampling.lean")
+        ml = re.search(r'^def weightedSamplingNote : String := "((?:[^"\\]|\\.)*)"', open(genl).read(), re.M) if os.path.exists(genl) else None
+        if not ml or ml.group(1) != "ok":
+            bad_notes["WeightedSampling body"] = ml.group(1) if ml else "<no translation>"
+        cov["translation_notes"] = "ok" if not bad_notes else bad_notes
+        if bad_notes:
+            ctx["broken"].append({"layer": "L2", "what": "translator: container/heap / sampleHeap methods no longer inside the fragments: %s" % bad_notes})
+        if not ex or "build_error" in ex or not ex.get("script") or not os.path.exists(C.driver_path(self.driver)):
+            return
+        d = os.path.join(C.OUT, "run", "C20-ast-%d" % os.getpid())
+        C.fresh_dir(d)
+        try:
+            sp, op = os.path.join(d, "script.txt"), os.path.join(d, "ast.txt")
+            open(sp, "w").write("".join(x + "\n" for x in ex["script"]))
+            rc, err = C.run_driver(self.driver, ["ast"], sp, op)
+            out = open(op, errors="replace").read().split("\n")[:-1]
+            impl = ex["impl"]
+            pairs = [(s, impl[i] if i < len(impl) else "<none>", a) for i, (s, a) in enumerate(zip(ex["script"], out))]
+            bad = [(s, a, b) for s, a, b in pairs if not self.compare(a, b)]
+            cov["ast_interpreter_lines"] = len(pairs)
+            cov["ast_interpreter_mismatches"] = len(bad)
+            if rc != 0 or len(out) != len(ex["script"]):
+                ctx["broken"].append({"layer": "L2", "what": "driver (ast mode) failed rc=%s, %d of %d lines: %s" % (rc, len(out), len(ex["script"]), (err or "")[-300:])})
+            elif bad:
+                ctx["broken"].append({"layer": "L2", "what": "WeightedSampling over the interpreted container/heap terms and the implementation differ on %d of %d lines" % (len(bad), len(pairs)),
+                                      "first": [{"script": s[:300], "impl": a[:200], "ast": b[:200]} for s, a, b in bad[:5]]})
+        finally:
+            import shutil
+            shutil.rmtree(d, ignore_errors=True)
 
     def nontrivial(self, script, impl):
         w = script.split()
